@@ -404,8 +404,16 @@ func (c *dbCase) interrupt(image *memory.Database, f flags, st *planStep, okNew 
 	return after, true
 }
 
+// upgradeCase: work item idx = (database idx/4, section idx%4). Every section
+// regenerates the same database, records its own uninterrupted upgrade and then
+// handles one group of interruption plans:
+//
+//	section 0  crash image after EVERY commit of the recorded execution (exhaustive), one restart
+//	section 1  cancellation at the k-th database operation; failing writes; one restart
+//	section 2,3  chains of 2..4 interruptions, optional migrations switched on along the way
 func upgradeCase(r *lib.Run, idx int) {
-	rng := lib.Rng("C18/upgrade", uint64(idx))
+	dbIdx, sec := idx/upgradeSections, idx%upgradeSections
+	rng := lib.Rng("C18/upgrade", uint64(dbIdx))
 	spec := genSpec(rng)
 	blocks := genChain(rng, &spec)
 	pre, m := buildPreImage(spec, blocks)
@@ -414,16 +422,26 @@ func upgradeCase(r *lib.Run, idx int) {
 	if rng.IntN(2) == 0 {
 		f0 = flags{rng.IntN(2) == 0, rng.IntN(2) == 0}
 	}
-	r.Count("db.variant:"+spec.Variant, 1)
-	r.Count("db.blocks", spec.Blocks)
-	r.Count("db.empty-blocks", spec.EmptyBlocks)
-	r.Count("db.transactions", spec.TxTotal)
-	if spec.LeadingEmpty > 0 {
-		r.Count("db.with-leading-empty-blocks", 1)
-	}
-	for _, b := range blocks {
-		for _, tx := range b.Txs {
-			r.Count("db.tx-kind:"+fmt.Sprintf("%T", tx)[6:], 1)
+	rng = lib.Rng("C18/plans", uint64(idx))
+	if sec == 0 {
+		r.Count("db.databases", 1)
+		r.Count("db.variant:"+spec.Variant, 1)
+		r.Count("db.blocks", spec.Blocks)
+		r.Count("db.empty-blocks", spec.EmptyBlocks)
+		r.Count("db.transactions", spec.TxTotal)
+		if spec.LeadingEmpty > 0 {
+			r.Count("db.with-leading-empty-blocks", 1)
+		}
+		if spec.Variant == "empty-database" {
+			r.Count("db.trivial", 1)
+		}
+		for _, b := range blocks {
+			for _, tx := range b.Txs {
+				r.Count("db.tx-kind:"+fmt.Sprintf("%T", tx)[6:], 1)
+			}
+			for _, rc := range b.Receipts {
+				r.Count("db.events", len(rc.Events))
+			}
 		}
 	}
 
@@ -432,7 +450,7 @@ func upgradeCase(r *lib.Run, idx int) {
 		panic(fmt.Sprintf("harness: generated pre-upgrade database violates the image invariants: %v", iss))
 	}
 
-	// ---- 0. uninterrupted upgrade, recorded
+	// ---- uninterrupted upgrade, recorded
 	base := runUpgrade(pre, f0, 0, -1)
 	r.Eval(1)
 	if base.newErr != nil {
@@ -451,122 +469,126 @@ func upgradeCase(r *lib.Run, idx int) {
 		c.report(nil, f0.String(), iss)
 	}
 	r.Count("upgrade.uninterrupted-runs", 1)
-	r.Count("upgrade.commit-log-entries", len(base.log))
-	r.Count("upgrade.db-operations", int(base.ops))
-	for k, v := range base.kinds {
-		r.Count("upgrade.op:"+k, v)
-	}
 	shape := fmt.Sprintf("%s|b%d|le%d|p%d|%s", spec.Variant, spec.Blocks, spec.LeadingEmpty, spec.PrunedTo, f0)
-	r.Case(shape + "|uninterrupted")
-	if spec.Variant == "empty-database" {
-		r.Count("db.trivial", 1)
-	}
+	var points []int64
 
-	// ---- 1. crash after every commit of the recorded execution, one restart
-	for k := 0; k <= len(base.log); k++ {
-		image := replayLog(pre, base.log[:k])
-		okNew := map[uint64]bool{}
-		steps := []planStep{{Kind: "crash", CrashAt: k, Flags: f0.String()}}
-		if k < len(base.log) {
-			steps[0].Note = "next commit would have been a " + base.log[k].kind
+	switch sec {
+	case 0:
+		r.Case(shape + "|uninterrupted")
+		r.Count("upgrade.commit-log-entries", len(base.log))
+		r.Count("upgrade.db-operations", int(base.ops))
+		for k, v := range base.kinds {
+			r.Count("upgrade.op:"+k, v)
 		}
-		iss := imageCheck(image, m, okNew)
-		r.Eval(1)
-		r.Count("upgrade.crash-images", 1)
-		r.Count("upgrade.images-checked", 1)
-		if len(iss) > 0 {
-			c.report(steps, "(crash image)", iss)
-		}
-		c.finish(image, f0, steps, okNew)
-		r.Case(fmt.Sprintf("%s|crash|%d/%d", shape, k, len(base.log)))
-		r.Count("upgrade.plans:1-restart", 1)
-	}
-
-	// ---- 2. cancellation observed at the k-th database operation, one restart
-	points := []int64{1, 2, 3, base.ops, base.ops - 1}
-	for i := 0; i < 9 && base.ops > 4; i++ {
-		points = append(points, 1+rng.Int64N(base.ops))
-	}
-	slices.Sort(points)
-	points = slices.Compact(points)
-	for _, k := range points {
-		if k < 1 {
-			continue
-		}
-		steps := []planStep{{Kind: "cancel", CancelAt: k, FailAt: -1, Flags: f0.String()}}
-		okNew := map[uint64]bool{}
-		image, ok := c.interrupt(pre, f0, &steps[0], okNew, steps)
-		if !ok {
-			continue
-		}
-		c.finish(image, f0, steps, okNew)
-		r.Case(fmt.Sprintf("%s|cancel|%d/%d", shape, k, base.ops))
-		r.Count("upgrade.plans:1-restart", 1)
-	}
-
-	// ---- 3. write failures (the k-th and every later commit fails)
-	for i := 0; i < 3 && len(base.log) > 0; i++ {
-		k := rng.IntN(len(base.log))
-		steps := []planStep{{Kind: "write-error", FailAt: k, Flags: f0.String()}}
-		okNew := map[uint64]bool{}
-		image, ok := c.interrupt(pre, f0, &steps[0], okNew, steps)
-		if !ok {
-			continue
-		}
-		c.finish(image, f0, steps, okNew)
-		r.Case(fmt.Sprintf("%s|write-error|%d", shape, k))
-		r.Count("upgrade.plans:1-restart", 1)
-	}
-
-	// ---- 4. 2..4 restarts, mixed interruptions, optional migrations switched on along the way
-	for p := 0; p < 7; p++ {
-		nint := 2 + rng.IntN(3)
-		f := f0
-		image := pre
-		okNew := map[uint64]bool{}
-		var steps []planStep
-		okPlan := true
-		for s := 0; s < nint && okPlan; s++ {
-			if rng.IntN(3) == 0 {
-				f[rng.IntN(2)] = true
+		// crash after every commit of the recorded execution, one restart
+		for k := 0; k <= len(base.log); k++ {
+			image := replayLog(pre, base.log[:k])
+			okNew := map[uint64]bool{}
+			steps := []planStep{{Kind: "crash", CrashAt: k, FailAt: -1, Flags: f0.String()}}
+			if k < len(base.log) {
+				steps[0].Note = "next commit would have been a " + base.log[k].kind
 			}
-			st := planStep{Kind: []string{"crash", "crash", "cancel", "cancel+crash", "write-error"}[rng.IntN(5)], FailAt: -1, Flags: f.String()}
-			switch st.Kind {
-			case "crash":
-				st.CrashAt = rng.IntN(len(base.log) + 1)
-			case "cancel":
-				st.CancelAt = 1 + rng.Int64N(max(base.ops, 1))
-			case "cancel+crash":
-				st.CancelAt = 1 + rng.Int64N(max(base.ops, 1))
-				st.CrashAt = rng.IntN(len(base.log) + 1)
-			case "write-error":
-				st.FailAt = rng.IntN(len(base.log) + 1)
+			iss := imageCheck(image, m, okNew)
+			r.Eval(1)
+			r.Count("upgrade.crash-images", 1)
+			r.Count("upgrade.images-checked", 1)
+			if len(iss) > 0 {
+				c.report(steps, "(crash image)", iss)
 			}
-			steps = append(steps, st)
-			image, okPlan = c.interrupt(image, f, &steps[len(steps)-1], okNew, steps)
+			c.finish(image, f0, steps, okNew)
+			r.Case(fmt.Sprintf("%s|crash|%d/%d", shape, k, len(base.log)))
+			r.Count("upgrade.plans:1-restart", 1)
 		}
-		if !okPlan {
-			continue
+
+	case 1:
+		// cancellation observed at the k-th database operation, one restart
+		points = []int64{1, 2, 3, base.ops, base.ops - 1}
+		for i := 0; i < 9 && base.ops > 4; i++ {
+			points = append(points, 1+rng.Int64N(base.ops))
 		}
-		c.finish(image, f, steps, okNew)
-		kinds := ""
-		for _, s := range steps {
-			kinds += s.Kind + ">"
+		slices.Sort(points)
+		points = slices.Compact(points)
+		for _, k := range points {
+			if k < 1 {
+				continue
+			}
+			steps := []planStep{{Kind: "cancel", CancelAt: k, FailAt: -1, Flags: f0.String()}}
+			okNew := map[uint64]bool{}
+			image, ok := c.interrupt(pre, f0, &steps[0], okNew, steps)
+			if !ok {
+				continue
+			}
+			c.finish(image, f0, steps, okNew)
+			r.Case(fmt.Sprintf("%s|cancel|%d/%d", shape, k, base.ops))
+			r.Count("upgrade.plans:1-restart", 1)
 		}
-		r.Case(fmt.Sprintf("%s|multi|%s|%s", shape, kinds, f))
-		r.Count(fmt.Sprintf("upgrade.plans:%d-restarts", nint), 1)
+		// write failures (the k-th and every later commit fails)
+		for i := 0; i < 3 && len(base.log) > 0; i++ {
+			k := rng.IntN(len(base.log))
+			steps := []planStep{{Kind: "write-error", FailAt: k, Flags: f0.String()}}
+			okNew := map[uint64]bool{}
+			image, ok := c.interrupt(pre, f0, &steps[0], okNew, steps)
+			if !ok {
+				continue
+			}
+			c.finish(image, f0, steps, okNew)
+			r.Case(fmt.Sprintf("%s|write-error|%d", shape, k))
+			r.Count("upgrade.plans:1-restart", 1)
+		}
+
+	default:
+		// 2..4 restarts, mixed interruptions, optional migrations switched on along the way
+		for p := 0; p < 4; p++ {
+			nint := 2 + rng.IntN(3)
+			f := f0
+			image := pre
+			okNew := map[uint64]bool{}
+			var steps []planStep
+			okPlan := true
+			for s := 0; s < nint && okPlan; s++ {
+				if rng.IntN(3) == 0 {
+					f[rng.IntN(2)] = true
+				}
+				st := planStep{Kind: []string{"crash", "crash", "cancel", "cancel+crash", "write-error"}[rng.IntN(5)], FailAt: -1, Flags: f.String()}
+				switch st.Kind {
+				case "crash":
+					st.CrashAt = rng.IntN(len(base.log) + 1)
+				case "cancel":
+					st.CancelAt = 1 + rng.Int64N(max(base.ops, 1))
+				case "cancel+crash":
+					st.CancelAt = 1 + rng.Int64N(max(base.ops, 1))
+					st.CrashAt = rng.IntN(len(base.log) + 1)
+				case "write-error":
+					st.FailAt = rng.IntN(len(base.log) + 1)
+				}
+				steps = append(steps, st)
+				image, okPlan = c.interrupt(image, f, &steps[len(steps)-1], okNew, steps)
+			}
+			if !okPlan {
+				continue
+			}
+			c.finish(image, f, steps, okNew)
+			kinds := ""
+			for _, s := range steps {
+				kinds += s.Kind + ">"
+			}
+			r.Case(fmt.Sprintf("%s|multi|%s|%s", shape, kinds, f))
+			r.Count(fmt.Sprintf("upgrade.plans:%d-restarts", nint), 1)
+		}
 	}
 	for cls, n := range c.reported {
 		r.Count("upgrade.plans-violating:"+cls, n)
 	}
-	if idx < 3 {
+	if dbIdx < 1 && sec < 3 {
 		r.Sample(map[string]any{
-			"part": "upgrade fault enumeration", "case": idx, "database": spec.String(), "optional_flags": f0.String(),
+			"part": "upgrade fault enumeration", "case": idx, "database": spec.String(), "section": sec, "optional_flags": f0.String(),
 			"commit_log_of_uninterrupted_run": logKinds(base.log), "db_operations": base.ops,
 			"crash_points": len(base.log) + 1, "cancel_points": points, "violating_plans_by_class": c.reported,
 		})
 	}
 }
+
+const upgradeSections = 4
 
 func logKinds(l []logEntry) []string {
 	var out []string
@@ -583,7 +605,7 @@ func TestC18(t *testing.T) {
 	r := lib.Start("C18", "fault_enumeration")
 	n := r.N(56, 2400)
 	t0 := time.Now()
-	r.Cases(n, 0, func(idx int) { upgradeCase(r, idx) })
+	r.Cases(n*upgradeSections, 0, func(idx int) { upgradeCase(r, idx) })
 	t1 := time.Now()
 	nr := r.N(1600, 80000)
 	r.Cases(nr, 0, func(idx int) { runnerLineage(r, idx) })
